@@ -8,7 +8,8 @@ which with one worker thread are in the order in which maestro handles the simca
  (ii)  at the end requires every actor still blocked to wait on something the model has NOT completed, and compares the
        final content of every queue with the model's;
  (iii) evaluates the property's monitors on the log alone (no model): exactly-once (no payload id received twice,
-       every received id was put), FIFO (the order of receipt follows the order of the puts and of the gets, nothing
+       every received id was put, every put whose wait returned was received by a get the application still holds, a
+       get<T>(timeout) that reported a timeout is not left queued), FIFO (the order of receipt follows the order of the puts and of the gets, nothing
        still queued at the end is older than something delivered), and the date monitor of sleeps (D11 witness).
 -/
 open SgVerif.Proto
@@ -24,6 +25,9 @@ structure HInfo where
   got : Option Nat := none      -- gets: payload id the implementation delivered (log)
   finished : Bool := false      -- the S4U activity is FINISHED (a wait returned / test was true): no more simcalls
   w0 : Nat := 0                 -- gets: number of buffer writes (model) when the get returned
+  cancelled : Bool := false     -- the application cancelled it (log: `c … mcancel H`)
+  timedOut : Bool := false      -- blocking get<T>(timeout) that reported a timeout: the application has no handle left
+  noBuf : Bool := false         -- get_async() without buffer: the application reads Mess::get_payload() (log: `mgeta Q H 0`)
 
 structure DS where
   qs : List MQ := [{}, {}, {}]
@@ -66,6 +70,10 @@ def receive (s : DS) (h : Nat) (pid : Nat) : DS × Verdict :=
   match s.handle h with
   | none => (s, .bad)
   | some hi =>
+    if hi.got = some pid && hi.noBuf then
+      -- no buffer: every wait()/test() on the FINISHED activity reads the same Mess::get_payload() again; nothing is written
+      (s, .ok)
+    else
     if hi.got = some pid then
       -- a later wait()/test() on the FINISHED activity finds the payload again in the buffer that the harness cleared
       -- when the get returned: the kernel has written it again
@@ -129,6 +137,26 @@ def fifoMonitor (s : DS) : Option String :=
     else false))
   if over then some "a put still queued at the end is older than a put already delivered" else none
 
+/-- exactly-once, the put side, on the log alone: a put whose wait()/test()/blocking put() returned was consumed; its
+payload must have been returned to (or be found in the buffer of) a get -/
+def lostPutMonitor (s : DS) : Option String :=
+  match s.hs.find? (fun (_, p) => !p.isGet && p.finished && match p.pid with
+      | some pid => !s.recvd.contains pid
+      | none => false) with
+  | some (h, p) => some s!"put {h} (payload {p.pid.getD 0}) completed but no get received its payload"
+  | none => none
+
+/-- on the log alone: the `G<actor>` entries left in queue `q` at the end are gets the application still holds (not
+received, not cancelled, not a get<T>(timeout) that reported a timeout) -/
+def zombieGetMonitor (s : DS) (q : Nat) (ents : List String) : Option String :=
+  let actors := (s.hs.filter (fun (_, g) => g.isGet && g.q == q && g.timedOut)).map (·.2.actor)
+  match actors.find? (fun a =>
+      let live := (s.hs.filter (fun (_, g) => g.isGet && g.q == q && g.actor == a && g.got.isNone && !g.cancelled &&
+                    !g.timedOut)).length
+      (ents.filter (· == s!"G{a}")).length > live) with
+  | some a => some s!"a get<T>(timeout) of actor {a} on queue {q} reported a timeout but is still queued"
+  | none => none
+
 def expectDump (m : Mess) : String :=
   match m.type with
   | .put => s!"P{m.payload.getD 0}"
@@ -151,12 +179,20 @@ def judge (s : DS) (q a : List String) : DS × Verdict :=
         else (s, .monfail s!"sleep of actor {act} returned at {clk}, due at {due}")
       | _, _ => (s, .bad)
     | _, _ => (s, .bad)
+  | ["c", act, "mgetfor", qi, h, _] =>  -- the real blocking get<T>(timeout): get_async(&local) + wait_for_or_cancel
+    match act.toNat?, qi.toNat?, h.toNat?, s.qs[qi.toNat?.getD 99]? with
+    | some act, some qi, some h, some mq =>
+      let (mq', id) := iget mq act true
+      let s1 := ({ s with qs := s.qs.set qi mq' }).setHandle h { q := qi, id := id, isGet := true, actor := act, call := s.line }
+      ({ s1 with pending := (act, h) :: s1.pending, fuzzy := (qi, id) :: s1.fuzzy }, .ok)
+    | _, _, _, _ => (s, .bad)
   | ["c", act, op, qi, h, pid] =>       -- mput / mputa / mputd Q H pid   or mgeta Q H B
     match act.toNat?, qi.toNat?, h.toNat?, pid.toNat?, s.qs[qi.toNat?.getD 99]? with
     | some act, some qi, some h, some pid, some mq =>
       if op == "mgeta" then
         let (mq', id) := iget mq act (pid != 0)
-        ((({ s with qs := s.qs.set qi mq' }).setHandle h { q := qi, id := id, isGet := true, actor := act, call := s.line }), .ok)
+        ((({ s with qs := s.qs.set qi mq' }).setHandle h
+            { q := qi, id := id, isGet := true, actor := act, call := s.line, noBuf := pid == 0 }), .ok)
       else if op == "mput" || op == "mputa" || op == "mputd" then
         let (mq', id) := iput mq act pid (op == "mputd")
         let s1 := ({ s with qs := s.qs.set qi mq' }).setHandle h
@@ -177,7 +213,7 @@ def judge (s : DS) (q a : List String) : DS × Verdict :=
       match s.handle h with
       | some hi =>
         match s.qs[hi.q]? with
-        | some mq => ({ s with qs := s.qs.set hi.q (cancel mq hi.id) }, .ok)
+        | some mq => (({ s with qs := s.qs.set hi.q (cancel mq hi.id) }).setHandle h { hi with cancelled := true }, .ok)
         | none => (s, .bad)
       | none => (s, .bad)
     | _, _ => (s, .bad)
@@ -204,7 +240,7 @@ def judge (s : DS) (q a : List String) : DS × Verdict :=
         if op == "mput" || op == "mwait" || op == "mwaitfor" then
           -- a blocking put / a wait on a put returned: the model must have completed it
           if isDone s h = some true then ((if op == "mput" then s.again h else s).finish h, .ok)
-          else (s, .disagree "model-has-it-not-done")
+          else (s.finish h, .disagree "model-has-it-not-done")
         else (s, .ok)      -- mputa / mputd / mgeta / mcancel return at once
       | ["ok", pid] =>
         match pid.toNat? with
@@ -221,6 +257,18 @@ def judge (s : DS) (q a : List String) : DS × Verdict :=
       | ["false"] =>
         if (s.tests.find? (·.1 == act)).map (·.2) = some false then (s, .ok) else (s, .disagree "model-test-true")
       | ["exc", "timeout"] =>
+        if op == "mgetfor" then
+          -- get<T>(timeout) = get_async(&local)->wait_for_or_cancel(timeout): the timed-out get is cancelled (its buffer,
+          -- a local of get<T>(), is gone) before the exception reaches the application
+          match s.handle h with
+          | some hi =>
+            match s.qs[hi.q]? with
+            | some mq =>
+              let s' := ({ s with qs := s.qs.set hi.q (cancel mq hi.id) }).setHandle h { hi with timedOut := true }
+              if isDone s h = some false then (s', .ok) else (s', .disagree "model-had-completed-it")
+            | none => (s, .bad)
+          | none => (s, .bad)
+        else
         if isDone s h = some false then (s, .ok) else (s, .disagree "model-had-completed-it")
       | _ => (s, .disagree "unexpected-result")
     | _, _ => (s, .bad)
@@ -234,6 +282,9 @@ def judge (s : DS) (q a : List String) : DS × Verdict :=
     | some qi, some mq =>
       let s := { s with dumps := (qi, a) :: s.dumps }
       let model := mq.queue.map expectDump
+      match zombieGetMonitor s qi a with
+      | some why => (s, .monfail why)
+      | none =>
       if model = a then (s, .ok) else (s, .disagree (" ".intercalate model))
     | _, _ => (s, .bad)
   | ["late", h] =>
@@ -267,7 +318,7 @@ def judge (s : DS) (q a : List String) : DS × Verdict :=
     match a with
     | [kind, _] =>
       if kind == "crash" then (s, .monfail "the library crashed") else
-      match fifoMonitor s with
+      match (fifoMonitor s).orElse (fun _ => lostPutMonitor s) with
       | some why => (s, .monfail why)
       | none =>
         -- whoever is still blocked must wait on something the model has not completed
